@@ -388,6 +388,26 @@ def run_one_cut(res, rng, prog, S, k, transport, variant, label, user_closes=Non
     # the gateway afterwards
     if gw.hasreceiver():
         res.violation(m("gateway-still-reports-receiving"), label)
+    # "... or later": whoever asks a channel of the dead gateway now is told about the loss - also for a channel the peer had
+    # closed in an orderly way before it died, and also after the survivor's own clean-up close()
+    if user_closes is None:
+        for c, ch in chans.items():
+            if ch is None:
+                continue
+            closed_first = rng.random() < 0.5
+            if closed_first:
+                try:
+                    ch.close()
+                except OSError:
+                    pass
+            out = in_own_thread(lambda ch=ch: ch.waitclose(5))
+            res.count("later_waitclose_calls")
+            if out == "accepted":
+                res.violation(m("later-waitclose-silent-after-connection-loss"),
+                              f"{label}: channel {c} ({'closed by a frame before the cut' if c in closed_by else 'open at the cut'}"
+                              f"{', closed by the survivor afterwards' if closed_first else ''}): waitclose() returned normally")
+            elif out == "blocked" or out.split(":")[0] not in ("EOFError", "RemoteError"):
+                res.violation(m("later-waitclose-ended-with-" + out.split(":")[0]), f"{label}: channel {c}: {out}")
     for name, op in (("newchannel", gw.newchannel), ("remote_exec", lambda: gw.remote_exec("pass")),
                      ("send", lambda: next(ch for ch in chans.values() if ch is not None).send(1)),
                      ("gateway_send", lambda: gw._send(M["CHANNEL_DATA"], 1, b""))):
@@ -812,6 +832,12 @@ def run_kill(spec):
             got = []
             for _ in range(j):
                 got.append(ch.receive(20))
+            exit_first = target == "worker" and run % 3 == 1
+            if exit_first:
+                # the survivor has just asked the gateway to exit (the worker is still busy, in its grace period) when the
+                # process dies: for everybody waiting on its channels that is the same loss
+                gw.exit()
+                res.count("kills_right_after_exit_was_requested")
             os.kill(pid, signal.SIGKILL)
             t0 = time.monotonic()
             term = None
@@ -822,7 +848,7 @@ def run_kill(spec):
                 term = "EOFError"
             except BaseException as e:  # noqa
                 term = type(e).__name__ + ": " + str(e)[:100]
-            label = f"kill {spec['spec']} ({target}) n={n} after j={j}"
+            label = f"kill {spec['spec']} ({target}) n={n} after j={j}{' right after gw.exit()' if exit_first else ''}"
             res.count("kills")
             res.case(core.h64("kill", spec["spec"], run, n, j))
             if term != "EOFError":
